@@ -43,6 +43,8 @@ def strategy(tier):
         "excl": st.sampled_from([None, None, ["pre_*"], ["?x.cmake", "d?/"], ["a.cmake", "zeta.cmake"], ["*.CMAKE", "sub/"],
                                  ["a.cmake", "b.cmake", "ax.cmake", "bx.cmake", "d.cmake"]]),
         "history": st.lists(step, min_size=2, max_size=5),
+        # a symbolic link to the first subdirectory, followed (input.follow_symlinks) or not
+        "alias": st.sampled_from([None, None, "follow", "nofollow"]),
     })
 
 
@@ -88,8 +90,13 @@ def evaluate(case):
         cfg = sb.path("settings.yaml")
         with open(cfg, "w") as f:
             f.write("rst:\n  file_extensions_in_titles: %s\n" % ("true" if case["ext"] else "false"))
-            if case.get("strip") or case.get("excl"):
+            alias = case.get("alias") if (tree["dirs"] and not case["lone"]) else None
+            if alias:
+                os.symlink(sorted(tree["dirs"])[0], os.path.join(home, "zz_alias"))
+            if case.get("strip") or case.get("excl") or alias:
                 f.write("input:\n")
+            if alias:
+                f.write("  follow_symlinks: %s\n" % ("true" if alias == "follow" else "false"))
             if case.get("strip"):
                 f.write("  function_parameter_name_strip_regex: %r\n  macro_parameter_name_strip_regex: %r\n"
                         % (case["strip"], case["strip"]))
@@ -155,7 +162,7 @@ def evaluate(case):
                         run(args_for("./" + target_rel if lone else ".", out), home)
                 elif kind == "moved":
                     dst = sb.path("else", f"moved{i}", "deeper", "in")
-                    shutil.copytree(home, dst)
+                    shutil.copytree(home, dst, symlinks=True)
                     run(args_for(input_abs(dst), out), sb.path("cwd"), order=order if n == 2 else None)
                 elif kind == "hashseed":
                     env = dict(os.environ, PYTHONHASHSEED=str(100 + n * 7 + i), CMINXDIR=sb.path("cfg"), HOME=sb.path("cfg"),
@@ -222,6 +229,8 @@ def evaluate(case):
         res.labels.append("input:" + ("lone-file" if lone else "directory"))
         if case.get("excl"):
             res.labels.append("settings:exclude-patterns")
+        if alias:
+            res.labels.append("symlinked-directory:" + alias)
         if shared_excluded:
             res.labels.append("shared-top-index-excluded")
         special = {"prefilled-output", "cwd-inside-sub", "moved", "cwd-rel", "cwd-dotslash", "cwd-updown", "cwd-dot", "others-before", "others-both", "api-successive"}
